@@ -13,7 +13,7 @@ CONFIG = {
     "streams": [
         {
             "name": "print.reparse", "harness": "printh", "driver": None, "env": _env("reparse"),
-            "n": {"quick": 2400, "thorough": 40000, "search": 6000},
+            "n": {"quick": 2000, "thorough": 40000, "search": 6000},
             "shards": {"quick": 8, "thorough": 16, "search": 8},
             "timeout_s": 2400,
             "rule": "whole-file oracle on the real code: (a) every .proto under /repo/proto and /repo/j5stest compiled with "
@@ -27,6 +27,21 @@ CONFIG = {
                     "protocompile parse+link with the import closure of the original -> descriptor comparison clause by clause "
                     "(options by proto.Equal after decoding both against the same extension descriptors) -> print again, compare "
                     "text. Non-trivial = file that printed (distinct by op text).",
+        },
+        {
+            "name": "print.file", "harness": "printh", "driver": "drv_print", "env": _env("file"),
+            "n": {"quick": 1600, "thorough": 30000, "search": 3000},
+            "shards": {"quick": 8, "thorough": 16, "search": 8},
+            "timeout_s": 2400,
+            "rule": "the same inputs as print.reparse (repository .proto / .j5s files, j5sgen + template j5s bundles, generated "
+                    "FileDescriptorProtos with and without source info / comments); every descriptor is summarised by the harness "
+                    "into the abstract element tree of J5V.Print.Layout (names, numbers, printed type names from the real "
+                    "fieldTypeName / contextRefName, option trees from the real OptionsFor + WalkOptionField, source lines and "
+                    "comments) and shipped with the op; compared: the text of the real protoprint.PrintFile with the text "
+                    "Layout.printText computes from the summary (whole-printer correspondence: element walk, sorting, gaps, "
+                    "comments, option statements, field options, json_name, imports, file options, extend blocks). 'unspecified' "
+                    "on both sides when an unstable sort of the printer is not determined by its comparison. Non-trivial = file "
+                    "that printed (distinct by op text).",
         },
         {
             "name": "print.str", "harness": "printh", "driver": "drv_print", "env": _env("str"),
